@@ -57,6 +57,11 @@ CONFS = {
     'first': {'decor_func': 'FIRST', 'decor_type': 'FIRST'},
     'last': {'decor_func': 'LAST', 'decor_type': 'LAST'},
     'hostile': {'decor_func': 'LAST_BEFORE_DECOR_HOSTILE'},
+    'func_first': {'decor_func': 'FIRST'},
+    'type_first': {'decor_type': 'FIRST'},
+    'func_last': {'decor_func': 'LAST'},
+    'type_hostile': {'decor_type': 'LAST_BEFORE_DECOR_HOSTILE'},
+    'nopep526_type_first': {'claw_is_pep526': False, 'decor_type': 'FIRST'},
     'warn': {'vt': 'warn'},
     'exc': {'vt': 'valueerror'},
 }
@@ -85,6 +90,9 @@ def module_source(spec):
         'def rec(fn):',
         '    ORDER.append(bool(getattr(fn, "__wrapped__", None)))',
         '    return fn',
+        'def crec(cls):',
+        '    ORDER.append(("cls", bool(getattr(cls.__dict__.get("m"), "__wrapped__", None))))',
+        '    return cls',
         '@rec',
         'def g(a: int) -> int:',
         '    return a%s' % (' + 0' * (v % 3)),
@@ -95,6 +103,10 @@ def module_source(spec):
         '        return a',
         '    @rec',
         '    def n(self, a: int = 0) -> int:',
+        '        return a',
+        '@crec',
+        'class K2:',
+        '    def m(self, a: str) -> str:',
         '        return a',
         'def _probe():',
         '    try:',
@@ -130,6 +142,7 @@ def fingerprint(mod):
         'f_bad': call(mod.f, object()),
         'm_bad': call(mod.K().m, 5),
         'n_bad': call(mod.K().n, 'x'),
+        'k2_bad': call(mod.K2().m, 5),
     }
 
 
